@@ -6,10 +6,12 @@ import (
 	"bufio"
 	"encoding/json"
 	"fmt"
+	"go/ast"
 	"go/types"
 	"os"
 	"path/filepath"
 	"sort"
+	"strconv"
 	"strings"
 
 	"golang.org/x/tools/go/ssa"
@@ -82,6 +84,7 @@ func staticCallees(fn *ssa.Function) []*ssa.Function {
 type selection struct {
 	keys     []string // contracts to verify
 	reliesOn []string // contracted callees verified under other properties
+	keepers  []string // accessors / converting constructors of the key objects the property relies on (subset of keys)
 }
 
 // selectFor computes the set of contracted functions checked for a property: the contracts tagged
@@ -136,6 +139,22 @@ func selectFor(prop string, info *propertyInfo, db *SpecDB, fns map[string]*ssa.
 			}
 		}
 	}
+	if prop == "C20" {
+		// the property quantifies over the whole public API used concurrently ("sign, verify, recover, derive shared
+		// secrets, multiply, encode and hash to curve"): every contracted exported function or method of the public
+		// packages is a root, whatever file it lives in (round 5, after seed C20-8: a sync.Pool of scratch tables in
+		// MultiScalarMultVartime, a file outside the anchors that nothing else calls)
+		for k, f := range fns {
+			c, ok := db.Contracts[k]
+			if !ok || c.Inline || c.Trusted != "" || f.Pkg == nil || strings.Contains(f.Pkg.Pkg.Path(), "/internal/") {
+				continue
+			}
+			if ast.IsExported(f.Name()) && !strings.HasPrefix(f.Name(), "verifLemma") {
+				roots[k] = true
+			}
+		}
+	}
+	keepers := map[string]bool{}
 	reach := map[*ssa.Function]bool{}
 	var visit func(f *ssa.Function)
 	visit = func(f *ssa.Function) {
@@ -215,6 +234,49 @@ func selectFor(prop string, info *propertyInfo, db *SpecDB, fns map[string]*ssa.
 				}
 			}
 		}
+		// invariant keepers (round 5, after seed C08-8: `PublicKey.Point()` handing out the internal point, which a
+		// constructor of another package then negates in place): every small contracted function that *receives* such
+		// an object and returns a pointer / slice -- the accessors and the converting constructors -- is checked with
+		// the property too; its `fresh` / frame obligations are what keeps the object the selected functions rely on
+		// immutable.  "Small" (at most keeperMaxInstrs SSA instructions, VCGO_KEEPER_MAX) keeps Sign / Verify of one
+		// property out of the check of another; a leak in a large function is still found by that function's own
+		// property and by C18.
+		keeperMax := 80
+		if v, err := strconv.Atoi(os.Getenv("VCGO_KEEPER_MAX")); err == nil {
+			keeperMax = v
+		}
+		for k, f := range fns {
+			c, ok := db.Contracts[k]
+			if !ok || c.Inline || c.Trusted != "" || sel[k] || f.Signature == nil || f.Blocks == nil {
+				continue
+			}
+			receives := false
+			if r := f.Signature.Recv(); r != nil && owning(r.Type()) != nil && used[owning(r.Type())] {
+				receives = true
+			}
+			for i := 0; i < f.Signature.Params().Len(); i++ {
+				if n := owning(f.Signature.Params().At(i).Type()); n != nil && used[n] {
+					receives = true
+				}
+			}
+			if !receives {
+				continue
+			}
+			handsOut := false
+			for i := 0; i < f.Signature.Results().Len(); i++ {
+				switch f.Signature.Results().At(i).Type().Underlying().(type) {
+				case *types.Pointer, *types.Slice:
+					handsOut = true
+				}
+			}
+			n := 0
+			for _, b := range f.Blocks {
+				n += len(b.Instrs)
+			}
+			if handsOut && (keeperMax == 0 || n <= keeperMax) {
+				keepers[k] = true
+			}
+		}
 		for k, f := range fns {
 			c, ok := db.Contracts[k]
 			if !ok || c.Inline || c.Trusted != "" || sel[k] || f.Signature == nil {
@@ -241,6 +303,15 @@ func selectFor(prop string, info *propertyInfo, db *SpecDB, fns map[string]*ssa.
 	for k := range sel {
 		s.keys = append(s.keys, k)
 	}
+	for k := range keepers {
+		if !sel[k] {
+			sel[k] = true
+			delete(rel, k)
+			s.keys = append(s.keys, k)
+			s.keepers = append(s.keepers, k)
+		}
+	}
+	sort.Strings(s.keepers)
 	for k := range rel {
 		if !sel[k] {
 			s.reliesOn = append(s.reliesOn, k)
@@ -370,6 +441,7 @@ func writeEvidence(path string, prop string, cfg runConfig, res *runResult, sel 
 		"functions_under_contract": funcs,
 		"inlined_helpers":          inl,
 		"relies_on":                relies,
+		"invariant_keepers":        shortNames(sel.keepers),
 		"by_backend":               byBackend,
 		"solver_time_s":            res.solverSec,
 		"vacuity_guards":           map[string]interface{}{"covers_checked": covers},
@@ -562,6 +634,13 @@ func globalStoreScan(lr *loadResult, modPath string) (scanned int, stores []stri
 								switch pt.Elem().Underlying().(type) {
 								case *types.Map, *types.Chan:
 									stores = append(stores, fmt.Sprintf("%s uses the package-level %s %s outside initialisation (shared mutable state: its entries and the objects they hold are not covered by the read-only frame argument)", f.String(), pt.Elem().Underlying().String(), g.String()))
+								default:
+									// a package-level object that contains a sync / sync/atomic type (Pool, Map, Mutex, Once,
+									// atomic.Value ...) is shared mutable state by construction: objects parked in it travel
+									// between goroutines outside every frame condition
+									if n := syncTypeIn(pt.Elem(), 0); n != "" {
+										stores = append(stores, fmt.Sprintf("%s uses the package-level variable %s, which holds a %s, outside initialisation (shared mutable state that the read-only frame argument does not cover)", f.String(), g.String(), n))
+									}
 								}
 							}
 						}
@@ -625,4 +704,40 @@ func intrinsicContractKey(name string) string {
 		return name
 	}
 	return name[:dot] + "::" + name[dot+1:]
+}
+
+func shortNames(ks []string) []string {
+	out := []string{}
+	for _, k := range ks {
+		out = append(out, shortKeyName(k))
+	}
+	return out
+}
+
+// syncTypeIn returns the name of a type of package sync or sync/atomic contained in t (through structs, arrays and
+// pointers, to a small depth), or "".
+func syncTypeIn(t types.Type, depth int) string {
+	if depth > 4 {
+		return ""
+	}
+	if n, ok := t.(*types.Named); ok && n.Obj().Pkg() != nil {
+		if p := n.Obj().Pkg().Path(); p == "sync" || p == "sync/atomic" {
+			return p + "." + n.Obj().Name()
+		}
+	}
+	switch u := t.Underlying().(type) {
+	case *types.Struct:
+		for i := 0; i < u.NumFields(); i++ {
+			if s := syncTypeIn(u.Field(i).Type(), depth+1); s != "" {
+				return s
+			}
+		}
+	case *types.Array:
+		return syncTypeIn(u.Elem(), depth+1)
+	case *types.Pointer:
+		return syncTypeIn(u.Elem(), depth+1)
+	case *types.Slice:
+		return syncTypeIn(u.Elem(), depth+1)
+	}
+	return ""
 }
